@@ -54,7 +54,7 @@ theorem number_hints_select_base (t : IntTy) :
     (t.bits < 64 → checkHints Generated.LYD_VALHINT_DECNUM t.name = some 10) := by
   cases t <;> decide
 
-/-- FULL STATEMENT (false on the pinned tree, finding F50): every source that offers no octal/hexadecimal hint parses a
+/-- FULL STATEMENT (false on the pinned tree, finding F63): every source that offers no octal/hexadecimal hint parses a
     64-bit integer in base 10.  It is a statement about the generated table, so it is decided by inspecting the table: -/
 def Int64SourcesUseBase10 : Prop :=
   ∀ hints b, hints % 16 / 2 ≤ 1 → checkHints hints "int64" = some b → b = 10
@@ -64,7 +64,7 @@ def int64Base10Check : Bool :=
   (List.range 128).all fun h => !decide (h % 16 / 2 ≤ 1) || (checkHints h "int64" == none) || (checkHints h "int64" == some 10)
 
 /-- The full statement holds exactly when the inspection of the generated table succeeds — whatever the table says.
-    On the pinned tree it fails (`int64Base10Check = false`); with the repair of F50 it succeeds. -/
+    On the pinned tree it fails (`int64Base10Check = false`); with the repair of F63 it succeeds. -/
 theorem int64_sources_use_base10_iff : Int64SourcesUseBase10 ↔ int64Base10Check = true := by
   have hc : ∀ hints t, checkHints (hints % 128) t = checkHints hints t := by
     intro hints t; unfold checkHints; simp
@@ -89,7 +89,7 @@ theorem int64_sources_use_base10_iff : Int64SourcesUseBase10 ↔ int64Base10Chec
       Option.some.injEq] at this
     exact this
 
-/-- The F50 witness: if the JSON-string hints (`LYD_VALHINT_STRING | LYD_VALHINT_NUM64`, no base bit) get base 0 — they do
+/-- The F63 witness: if the JSON-string hints (`LYD_VALHINT_STRING | LYD_VALHINT_NUM64`, no base bit) get base 0 — they do
     on the pinned tree, see the example — the full statement is false: `"010"` is 8 there and 10 from XML. -/
 theorem int64_sources_use_base10_fails (h : checkHints (Generated.LYD_VALHINT_STRING + Generated.LYD_VALHINT_NUM64) "int64" = some 0) :
     ¬ Int64SourcesUseBase10 := by
